@@ -342,6 +342,10 @@ def _line_mode_limits(ctx):
             if kind(c) == 'cmp' and c[2] == ('sub', data, C(0)) and \
                     c[3] == C(0):
                 bad = (c[1] == '!=') == pol
+        if bad is None and any(kind(c) == 'attr' and
+                               c[2] == 'disconnecting' and pol
+                               for c, pol in p.cond):
+            continue         # already closing: nothing is interpreted
         if bad is None:
             ctx.ob('C06.D3', q, 'first-byte-tested', False,
                    'the first byte of a server connection must be compared '
